@@ -160,7 +160,56 @@ def bounded(tier, seed, procs):
                     b.fail(Failure("unifier", f"pattern={pat!r} target={t!r} candidates={cands} why={why}", dict(kind="unify", pattern=trees.src(pat), target=trees.src(t), cands=cands),
                                    expected="sound records", actual=why, functions=["UnidirectionalUnifier.map_commut_assoc", "UnifierBase"]))
     b2 = matchpy_bridge(tier)
-    return [b, b2]
+    return [b, b2, b_falsy_bindings(tier)]
+
+
+def b_falsy_bindings(tier):
+    """A pattern variable that occurs several times must be bound to ONE value, also when that value is falsy."""
+    import pymbolic.primitives as p
+    from pymbolic.mapper.unifier import UnidirectionalUnifier
+    b = BoundedRun("repeated-variable-bindings", rule="patterns in which the candidate variable a occurs 2..3 times in non-commutative positions (f(a,a), f(a,b,a), a/a, a**a, "
+                   "g[a,a], a<a, If(a==a, a, c)) x targets obtained by filling the occurrences with every pair (triple) of values from {0, 0.0, False, 0*x, 0/y, 3, x, x+1}: a "
+                   "record may be returned only if all occurrences hold the same value, and then binds a to it; mixed fillings (incl. falsy with non-falsy, in both orders) "
+                   "must give no record", bound="7 patterns x 8^2 (8^3) fillings", functions=["unify_map", "UnificationRecord.unify", "UnifierBase.map_*"])
+    a, bb, c, f, g, x, y = (p.Variable(n) for n in ("a", "b", "c", "f", "g", "x", "y"))
+    vals = [0, 0.0, False, p.Product((0, x)), p.Quotient(0, y), 3, x, p.Sum((x, 1))]
+    pats = [("f(a,a)", lambda u, v, w: p.Call(f, (u, v)), 2), ("a/a", lambda u, v, w: p.Quotient(u, v), 2), ("a**a", lambda u, v, w: p.Power(u, v), 2),
+            ("g[a,a]", lambda u, v, w: p.Subscript(g, (u, v)), 2), ("a<a", lambda u, v, w: p.Comparison(u, "<", v), 2),
+            ("f(a,b,a)", lambda u, v, w: p.Call(f, (u, p.Variable("zz") if w is None else w, v)), 2), ("If(a==a,a,c)", lambda u, v, w: p.If(p.Comparison(u, "==", v), w, y), 3)]
+    for name, mk, n in pats:
+        pat = mk(a, a, a if n == 3 else bb)
+        combos = itertools.product(vals, repeat=n)
+        for combo in combos:
+            u, v = combo[0], combo[1]
+            w = combo[2] if n == 3 else 5
+            tgt = mk(u, v, w)
+            r = outcome.run(lambda: UnidirectionalUnifier(lhs_mapping_candidates={"a", "b", "c"})(pat, tgt))
+            b.case((name, repr(combo)), sample=dict(pattern=name, filling=[repr(t) for t in combo]))
+            occ = combo if n == 3 else (u, v)
+            consistent = all(_same_typed(occ[0], t) for t in occ[1:])
+            why = None
+            if r[0] != "val":
+                why = outcome.describe(r)[:150]
+            else:
+                for rec in r[1]:
+                    eqs = [(l, rv) for l, rv in rec.equations if l == a]
+                    if len({repr(rv) for _, rv in eqs}) > 1:
+                        why = f"a bound to several values: {[repr(rv) for _, rv in eqs]}"
+                    elif not consistent:
+                        why = f"record returned although the occurrences of a hold different values: {rec.equations!r}"
+                    elif eqs and not _same_typed(eqs[0][1], occ[0]) and eqs[0][1] != occ[0]:
+                        why = f"a bound to {eqs[0][1]!r}, occurrences hold {occ[0]!r}"
+            if why:
+                b.fail(Failure("repeated-variable-bindings", f"pattern={name} filling={[repr(t) for t in combo]} why={why[:100]}", dict(kind="falsy", pattern=name, filling=[repr(t) for t in combo]),
+                               expected="one value per variable, no record for mixed fillings", actual=why[:250], functions=["unify_map", "UnificationRecord.unify"]))
+    return b
+
+
+def _same_typed(u, v):
+    import pymbolic.primitives as p
+    if isinstance(u, p.Expression) or isinstance(v, p.Expression):
+        return u == v
+    return u == v       # 0, 0.0 and False are == : one value for the unifier
 
 
 def matchpy_bridge(tier):
